@@ -82,9 +82,6 @@ func (g *hdGen) freshRS(c int, backend int) int {
 				continue
 			}
 		}
-		if !g.opts.selfKick && g.rsOf[c] == rs {
-			continue
-		}
 		return rs
 	}
 	return 0
@@ -103,7 +100,7 @@ func (g *hdGen) op() hdOp {
 		// hello
 		x := r.intn(100)
 		switch {
-		case x < 60:
+		case x < 60 && !(g.opts.internal && x < 25):
 			bk := r.intn(2)
 			if r.chance(6) {
 				bk = 2 + r.intn(2)
@@ -113,7 +110,7 @@ func (g *hdGen) op() hdOp {
 				g.auth[c] = bk
 			}
 			return hdOp{K: "hello", C: c, B: bk, U: r.intn(4), Reject: rej}
-		case x < 85:
+		case x >= 60 && x < 85:
 			return hdOp{K: "hello", C: c, Ht: "resume", Id: g.idref(true)}
 		default:
 			if g.opts.internal {
@@ -338,7 +335,7 @@ func TestVerifHub(t *testing.T) {
 	} else {
 		for i := 0; i < n; i++ {
 			r := newVrng(env.seed, uint64(i))
-			opts := hdGenOpts{api: true, internal: i%3 == 2}
+			opts := hdGenOpts{api: true, internal: i%2 == 1}
 			cases = append(cases, hdGenCase(r, i, opts, 12+r.intn(28)))
 		}
 	}
